@@ -125,7 +125,7 @@ func porcupineModel(init *Model) porcupine.Model {
 }
 
 // concScenarios biases the tasks towards collisions on one table and key.
-var concScenarios = []string{"add-race", "put-race", "create-race", "describe-write", "lifecycle", "toggle", "batch", "mix", "mix"}
+var concScenarios = []string{"add-race", "put-race", "del-race", "index-read", "create-race", "describe-write", "lifecycle", "toggle", "batch", "mix", "mix"}
 
 type concGen struct {
 	*Gen
@@ -210,6 +210,24 @@ func (g *concGen) concCmd(m *Model, task, i int) *Cmd {
 	case "put-race":
 		if i == 0 || r.Chance(0.5) {
 			return condPut()
+		}
+	case "del-race":
+		// racing guarded deletes of one item: exactly one may win
+		if i == 0 || r.Chance(0.5) {
+			return &Cmd{Op: "Delete", T: t0, Key: g.hotKey.Clone(), Cond: &Expr{Op: "exists", Path: &Path{Attr: def0.Hash.Name}}}
+		}
+	case "index-read":
+		// concurrent readers of one secondary index
+		if len(def0.Indexes) > 0 && (i == 0 || r.Chance(0.6)) {
+			ix := pick(r, def0.Indexes)
+			if r.Chance(0.5) {
+				return &Cmd{Op: "Scan", T: t0, Index: ix.Name}
+			}
+			vals := idxPartVals(&g.W.Tables[0], def0, ix)
+			if len(vals) > 0 {
+				v := pick(r, vals)
+				return &Cmd{Op: "Query", T: t0, Index: ix.Name, HashAttr: ix.Hash.Name, Part: &v, Back: r.Chance(0.4)}
+			}
 		}
 	case "create-race":
 		if len(g.W.Tables) > 1 {
@@ -326,12 +344,24 @@ func ConcPlanFor(seed uint64) (*Plan, string) {
 	for _, c := range p.Cmds {
 		m.Apply(c)
 	}
-	for i, n := 0, r.Intn(3); i < n; i++ {
+	nInit := r.Intn(3)
+	if g.scenario == "del-race" || g.scenario == "index-read" {
+		nInit = r.Range(2, 3)
+	}
+	for i, n := 0, nInit; i < n; i++ {
 		k := pick(r, g.W.Tables[0].KeysOf(def0)).Clone()
+		if i == 0 && g.scenario == "del-race" {
+			k = g.hotKey.Clone()
+		}
 		it := k.Clone()
 		it["a"] = g.uniqS(9, i)
 		if r.Chance(0.5) {
 			it["n"] = N("0")
+		}
+		for _, kd := range indexAttrs(def0) {
+			if g.scenario == "index-read" || r.Chance(0.5) {
+				it[kd.Name] = g.idxAttrVal(t0, kd.Name, kd.Type)
+			}
 		}
 		c := &Cmd{ID: g.id(), Op: "Put", T: t0, Item: it, Actor: "setup"}
 		m.Apply(c)
